@@ -74,6 +74,7 @@ type Exec struct {
 	qcount          int
 	solv            *Solvers
 	solvRef         *Solvers
+	evalState       *State
 }
 
 type pathEnd struct{}
@@ -405,7 +406,11 @@ func (x *Exec) constVal(st *State, c *ssa.Const) Value {
 		return Scalar{Term{fmt.Sprintf("(_ bv%d %d)", i, w), sort}}
 	default:
 		_ = b
-		name := "lit_" + sort + "_" + sanitize(c.Value.ExactString())
+		val := c.Value
+		if val.Kind() == constant.Complex && constant.Sign(constant.Imag(val)) == 0 {
+			val = constant.Real(val)
+		}
+		name := "lit_" + sort + "_" + sanitize(val.ExactString())
 		return Scalar{x.decls.Const(name, sort)}
 	}
 	panic("unreachable")
